@@ -19,7 +19,8 @@
    during which it was timestamped, one timestamped before the first (kept) dump counts for that first dump, the last
    solution of a dump wins.  Proofs/CalPlaceP.v: place = spec_place for every time-sorted history. *)
 From Coq Require Import ZArith QArith List Bool String.
-From KV Require Import Base.Sx Base.Str Gen.Generated Model.CalInterp.
+From Coq Require Import Ascii.
+From KV Require Import Base.Sx Base.Str Gen.Generated Model.CalInterp Model.CalSelect.
 Import ListNotations.
 Open Scope Z_scope.
 
@@ -140,6 +141,31 @@ Definition spec_gain_from_samples (ends : list Q) (P : Q) (samples : list (Q * l
   | None => None
   end.
 
+(* ------------------------------------------------------------------ which telstate sensors hold a product
+   indirect_cal_product: with the stream attribute product_<type>_parts = n the product is read from the n sensors
+   <substream>_product_<type><i>, i = first .. first+n-1 (first = parts_first_index, regenerated), ALSO when n = 1; the
+   unsuffixed sensor <substream>_product_<type> is read only when the attribute is absent.  A key is None (unsuffixed)
+   or Some i; `lookup` gives the samples of a sensor (None = KeyError: some substream lacks it). *)
+Definition product_keys (n_parts : option nat) : list (option nat) :=
+  match n_parts with None => [None] | Some n => map Some (seq parts_first_index n) end.
+(* None = KeyError *)
+Definition indirect_product (lookup : option nat -> option part) (n_parts : option nat) : option (list sample) :=
+  match n_parts with
+  | None => lookup None
+  | Some n => stitch (map (fun k => match lookup k with Some p => p | None => [] end) (product_keys (Some n)))
+  end.
+
+(* ------------------------------------------------------------------ <stream>.<type> names
+   applycal._parse_cal_product: split at the LAST dot (parse_splits_at_last_dot, regenerated) *)
+Fixpoint lsplit_dot (s : string) : option (string * string) :=
+  match s with
+  | EmptyString => None
+  | String a t => if Ascii.eqb a "."%char then Some (EmptyString, t)
+                  else match lsplit_dot t with Some (h, r) => Some (String a h, r) | None => None end
+  end.
+Definition parse_cal_product (s : string) : option (string * string) :=
+  if parse_splits_at_last_dot then CalSelect.rsplit_dot s else lsplit_dot s.
+
 (* ------------------------------------------------------------------ wire *)
 Definition tsample_of_sx (x : sx) : Q * list (option pv) :=
   match x with L [t; v] => (q_of_sx t, opvs_of_sx v) | _ => (0%Q, []) end.
@@ -166,5 +192,19 @@ Definition wire_144 (x : sx) : sx :=
       let tgs := match tg with L [t] => Some (to_Zs t) | _ => None end in
       L [sx_of_rows (gain_from_samples ty es (q_of_sx p) sm tgs);
          sx_of_rows (spec_gain_from_samples es (q_of_sx p) sm tgs)]
+  (* op 2: [n_parts ([] | [n]); unsuffixed sensor ([] | [samples]); suffixed sensors, each [] | [samples]] *)
+  | L [I 2; np; raw; parts] =>
+      let sub_of := fun o => match o with L [p] => Some (map sample_of_sx (to_list p)) | _ => None end in
+      let lookup := fun k => match k with None => sub_of raw | Some i => nth i (map sub_of (to_list parts)) None end in
+      match indirect_product lookup (match np with L [I n] => Some (Z.to_nat n) | _ => None end) with
+      | Some l => L [L (map sx_of_sample l)]
+      | None => L []
+      end
+  (* op 3: a product name -> [] (ValueError) | [stream; type] *)
+  | L [I 3; s] =>
+      match parse_cal_product (to_string s) with
+      | Some (a, b) => L [of_string a; of_string b]
+      | None => L []
+      end
   | _ => sx_err
   end.
